@@ -903,7 +903,7 @@ func TestC50(t *testing.T) {
 	m.Assume("virtual-time stream: testing/synctest fake clock; verdicts use only that clock")
 	ecKey(rand.New(rand.NewPCG(1, 2)))
 
-	total := m.N(1200, 40000)
+	total := m.N(1000, 20000)
 	m.Cases("sessions", total, func(i int64, r *rand.Rand) {
 		cfg := sessionCfg{NB: 2 + r.IntN(6), idPrefix: fmt.Sprintf("c%d", i)}
 		switch i % 4 {
@@ -937,7 +937,7 @@ func TestC50(t *testing.T) {
 		}
 	})
 
-	m.Cases("vt", m.N(400, 8000), func(i int64, r *rand.Rand) {
+	m.Cases("vt", m.N(320, 4000), func(i int64, r *rand.Rand) {
 		synctest.Test(t, func(t *testing.T) { vtCase(m, i, r) })
 	})
 
@@ -950,7 +950,7 @@ func TestC50(t *testing.T) {
 	m.Gate("replies_without_replay_nonce", 100, "replies without Replay-Nonce were observed")
 	m.Gate("results_matched_final_reply", 500, "successful results were matched against the final reply")
 	m.Gate("errors_matched_final_reply", 100, "returned *acme.Error values were matched against the final reply")
-	m.Gate("vt_default_backoff_gaps", 100, "default-policy retry delays were measured in virtual time")
+	m.Gate("vt_default_backoff_gaps", 50, "default-policy retry delays were measured in virtual time")
 	m.Gate("vt_retry_after_gaps", 50, "Retry-After delays under the default policy were measured in virtual time")
 	m.Gate("vt_cancel_during_backoff", 50, "cancellation during a backoff sleep was observed in virtual time")
 	m.Gate("vt_cancel_during_poll_sleep", 50, "cancellation during a WaitOrder/WaitAuthorization poll sleep was observed in virtual time")
